@@ -126,6 +126,37 @@ def align : Handler := fun args impl =>
     { model := s!"{d'.offset} {d'.base}", oracle := o }
   | _ => unmodelled
 
+/-- `alignn <o0> <o1> … <ok>`: a top-level decoder advanced by o0, then a chain of SliceDecoders each advanced by the
+    next offset, then SkipAlign on the innermost.  Alignment counts from the start of the enclosing message, i.e. the
+    absolute position o0+…+ok; result: innermost offset and base. -/
+def alignn : Handler := fun args impl =>
+  match args.mapM natArg with
+  | some (o0 :: rest) =>
+    let total := (o0 :: rest).foldl (· + ·) 0
+    let root : Dec := { (newDecoder (Slice.exact (zeros (total + 64)))) with offset := o0 }
+    -- chain of children; each child starts at the parent's current position
+    let rec chain (d : Dec) (remaining : Nat) : List Nat → Option Dec
+      | [] => some d
+      | o :: os =>
+        match sliceDecoder d (remaining + 32) 0 with
+        | some (c, _) => chain { c with offset := o } (remaining - o) os
+        | none => none
+    match chain root (total - o0) rest with
+    | some d =>
+      let d' := skipAlign d
+      let lastOff := rest.getLast?.getD o0
+      let wantBase := total - lastOff
+      let o := match impl.splitOn " " with
+        | [a, b] => match a.toNat?, b.toNat? with
+          | some o', some b' =>
+            if b' = wantBase ∧ (wantBase + o') % 8 = 0 ∧ lastOff ≤ o' ∧ o' ≤ lastOff + 7 then none
+            else some s!"nested align {args}: position {total} from the message start, got offset {o'} base {b'} (absolute {b' + o'})"
+          | _, _ => some s!"alignn: unparsable {impl}"
+        | _ => some s!"alignn: unparsable {impl}"
+      { model := s!"{d'.offset} {d'.base}", oracle := o }
+    | none => unmodelled
+  | _ => unmodelled
+
 /-- `hdr <hex backing> <len>`: Header.Decode -/
 def hdr : Handler := fun args impl =>
   match args with
@@ -149,6 +180,6 @@ def hdr : Handler := fun args impl =>
   | _ => unmodelled
 
 def handlers : List (String × Handler) :=
-  [("benc", enc), ("brt", rt), ("bdec", dec), ("balign", align), ("bhdr", hdr)]
+  [("benc", enc), ("brt", rt), ("bdec", dec), ("balign", align), ("balignn", alignn), ("bhdr", hdr)]
 
 end OFV.Driver.C19
